@@ -164,6 +164,22 @@ def oracle_mapped(case) -> list:
         out.append(D("C16:mapped:extra-assignment", f"{len(got - want)} listed assignment(s) are not greedy-stable, e.g. {sorted(got - want)[0]}"))
     if m.dot_bracket not in alls:
         out.append(D("C16:mapped:optimal-absent", "the mapping's dot_bracket text is not a member of its all_dot_brackets"))
+    # the other entry point on the SAME mapping, asked after the 3D list was read (and once more after a second read of
+    # the 3D list): BpSeq.all_dot_brackets of the mapping's BPSEQ is the same set, with the optimal and the
+    # first-come-first-served notation in it - whatever was asked of the mapping before
+    for round_ in ("after-3d-read", "after-second-3d-read"):
+        lower = m.bpseq.all_dot_brackets
+        got2 = set()
+        for db in lower:
+            lv = ssref.stem_levels_from_structure(db.structure, st) if db.sequence == seq else None
+            got2.add(tuple(lv) if lv is not None else ("unreadable", db.structure))
+        if got2 != want:
+            out.append(D(f"C16:mapped:bpseq-list-{round_}", f"BpSeq.all_dot_brackets of the mapping has {len(lower)} entries, {len(want - got2)} expected assignment(s) absent, {len(got2 - want)} foreign"))
+            break
+        for nm, one in (("optimal", m.bpseq.dot_bracket), ("fcfs", m.bpseq.fcfs)):
+            if one not in lower:
+                out.append(D(f"C16:mapped:bpseq-list-{round_}-lacks-{nm}", f"{one.structure[:60]!r} is not in BpSeq.all_dot_brackets of the mapping"))
+        _ = m.all_dot_brackets
     return out
 
 
